@@ -49,6 +49,7 @@ def run(ctx):
     g_waiter_woken_at_end(ctx)
     b_event_limit_ends_turn(ctx)
     c_generated_flow_name(ctx)
+    b_dynamic_load_contained(ctx)
     b_dynamic_flow_bounded(ctx)
 
 
@@ -889,6 +890,25 @@ def c_generated_flow_name(ctx):
               "escape_flow_name keeps %s%s: a bot intent like `bot tell $joke` / `bot give  answer` is registered under a different name than the one that is started - the undefined "
               "flow is regenerated until the event budget is exhausted (dozens of LLM calls, empty reply, every later turn empty)"
               % (", ".join("`%s`" % m for m in missing) or "", (" and " if missing else "") + ("surplus white space" if not collapses else "")), line=fn.lineno)
+
+
+def b_dynamic_load_contained(ctx):
+    """Multi-step generation: the LLM's text becomes a flow in _process_start_flow.  Parsing it is guarded (fallback: `bot general response`); REGISTERING the parsed flow also
+    depends on what the LLM wrote (`execute create_event` without its parameter: KeyError while the trigger types are computed) and must be under the same fallback (F153)."""
+    RT1_ = "nemoguardrails/colang/v1_0/runtime/runtime.py"
+    t = ctx.tree.ast(RT1_)
+    fn = find_function(t, "_process_start_flow", "RuntimeV1_0")
+    if fn is None:
+        raise AnalysisError("RuntimeV1_0._process_start_flow not found", anchor=RT1_ + "::RuntimeV1_0._process_start_flow")
+    sites = [c for c in walk_no_nested(fn) if isinstance(c, ast.Call) and src(c.func) in ("self._load_flow_config", "parse_colang_file")]
+    ctx.floor("C17.b.dynamic-load-contained", RT1_, "parse / registration of the LLM generated flow", len(sites), 2)
+    for c in sites:
+        cov = contained(c, fn)
+        ok = cov is not None and not handler_reraises(cov[1]) and any(isinstance(r, ast.Return) for st in cov[1].body for r in ast.walk(st))
+        ctx.check("C17.b.dynamic-load-contained", RT1_, "RuntimeV1_0._process_start_flow", first_line(c, 60), ok,
+                  "a failure falls back to the general response" if ok else
+                  "`%s` runs outside the try that falls back to the general response: LLM text that parses but cannot be registered (e.g. `execute create_event` without "
+                  "parameters) raises out of generate" % first_line(c, 50), line=c.lineno)
 
 
 def b_guards_live(ctx):
